@@ -122,15 +122,15 @@ func (p *Program) schemas() []*Schema {
 				}
 				num, err := strconv.Atoi(tag)
 				if err != nil || num < 1 {
-					s.TagErr = append(s.TagErr, fmt.Sprintf("field %s has invalid fieldNumber %q", st.Field(i).Name(), tag))
+					s.TagErr = append(s.TagErr, fmt.Sprintf("field %s has invalid fieldNumber %q", fieldNameOf(st.Field(i)), tag))
 					continue
 				}
 				if prev, dup := seen[num]; dup {
-					s.TagErr = append(s.TagErr, fmt.Sprintf("fieldNumber %d used by both %s and %s", num, prev, st.Field(i).Name()))
+					s.TagErr = append(s.TagErr, fmt.Sprintf("fieldNumber %d used by both %s and %s", num, prev, fieldNameOf(st.Field(i))))
 				}
-				seen[num] = st.Field(i).Name()
+				seen[num] = fieldNameOf(st.Field(i))
 				k, e := goKind(st.Field(i).Type())
-				s.Fields = append(s.Fields, SchemaField{Num: num, Name: st.Field(i).Name(), GoType: typeName(st.Field(i).Type()), Kind: k, Elem: e})
+				s.Fields = append(s.Fields, SchemaField{Num: num, Name: fieldNameOf(st.Field(i)), GoType: typeName(st.Field(i).Type()), Kind: k, Elem: e})
 			}
 			if len(s.Fields) > 0 {
 				out = append(out, s)
@@ -227,7 +227,7 @@ func storedField(call *ssa.Call) string {
 				if fa, ok := u.Addr.(*ssa.FieldAddr); ok && u.Val == v {
 					if t := T(fa.X); t.Op == "param" && t.Sym == "p0" {
 						_, st := ownerOfFieldBase(fa.X.Type())
-						res = st.Field(fa.Field).Name()
+						res = fieldNameOf(st.Field(fa.Field))
 						return
 					}
 				}
